@@ -266,6 +266,62 @@ def f(x: FLOAT[...], n: INT64, d: BOOL):
     return y - t
 ''', ["x:F:2 n:I: d:B:"])
 
+P("compare_all_python_operators", '''
+@script()
+def f(x: FLOAT[...], y: FLOAT[...]):
+    a = op.Cast(x <= y, to=1) + op.Cast(x >= y, to=1) * 2.0
+    b = op.Cast(x < y, to=1) + op.Cast(x > y, to=1) * 2.0
+    c = op.Cast(x == y, to=1) + op.Cast(x != y, to=1) * 2.0
+    d = op.Cast(x <= 0.5, to=1) + op.Cast(1.5 >= y, to=1) * 2.0
+    return a, b, c, d
+''', ["x:F:3 y:F:3", "x:F: y:F:2"])
+
+P("parallel_assignment_swap", '''
+@script()
+def f(a: FLOAT[...], b: FLOAT[...]):
+    p = a + 1.0
+    q = b * 2.0
+    p, q = q, p
+    a, b = b, a
+    return p - a, q + b
+''', ["a:F:2 b:F:2"])
+
+P("parallel_assignment_fibonacci_loop", '''
+@script()
+def f(x: FLOAT[...], y: FLOAT[...], n: INT64):
+    a = x
+    b = y
+    for i in range(n):
+        a, b = b, a + b
+    return a, b
+''', ["x:F:2 y:F:2 n:I:"])
+
+P("parallel_assignment_in_branch", '''
+@script()
+def f(x: FLOAT[...], y: FLOAT[...], c: BOOL):
+    a = x * 3.0
+    b = y - 1.0
+    if c:
+        a, b = b, a
+    else:
+        a, b = a + b, a - b
+    return a, b
+''', ["x:F:2 y:F:2 c:B:"])
+
+P("subfunction_literal_arguments", '''
+@script()
+def g(a: FLOAT[...], b: FLOAT[...]):
+    return a * b + 1.0
+
+@script()
+def h(a: INT64[...], k: INT64[...]):
+    return a + k
+
+@script()
+def f(x: FLOAT[...], n: INT64[...]):
+    return g(x, 2.0), g(0.5, x), h(n, 3)
+''', ["x:F:2 n:I:2"])
+
 # ---------------------------------------------------------------- if / else
 P("if_both", '''
 @script()
